@@ -92,11 +92,11 @@ End Win.
 (* ================================================================ the Windows emitter
    Everything about ReadDirectoryChangesW ([win_kernel]) is modelled from the documentation and
    cannot be validated in this sandbox. *)
-Require WD.Base.BStr WD.Model.SubEvents WD.Model.PlatFs WD.Model.WinEmitter WD.Proofs.WinEmitterProofs.
+Require WD.Base.BStr WD.Model.SubEvents WD.Model.PlatFs WD.Model.WinEmitter WD.Proofs.WinEmitterProofs WD.Proofs.WinReplayProofs.
 Require Import Coq.Sorting.Permutation.
 
 Module WinEmit.
-Import WD.Base.BStr WD.Model.SubEvents WD.Model.PlatFs WD.Model.WinEmitter WD.Proofs.WinEmitterProofs.
+Import WD.Base.BStr WD.Model.SubEvents WD.Model.PlatFs WD.Model.WinEmitter WD.Proofs.WinEmitterProofs WD.Proofs.WinReplayProofs.
 
 (* Contract.  For every tree, every operation of the alphabet that succeeds in it (names valid, any
    depth), recursive or not: feeding the notifications the simulator renders for that one operation to
@@ -144,13 +144,21 @@ Proof. exact win_contract_cut_ok. Qed.
 Print Assumptions C20_win_contract_cut.
 
 (* Replay, full statement: one operation per batch, the walked tree [sub] lists what lies below the
-   target; replaying the contract on the view of the tree before gives the view after (as a set). *)
+   target (as a set: os.walk order versus the tree's own order); replaying the contract on the view
+   of the tree before gives the view after.  Holds for every operation of the alphabet, directories
+   with content included: the chain of exact re-keys (the moved event and one synthetic moved event
+   per descendant) equals the prefix rename because no destination d/r is a source s/r' (s and d are
+   incomparable: d is not below s, and s is not below the fresh name d). *)
 Definition C20_win_replay_full : Prop :=
   forall (sub : path -> tree) (before : fs) (o : op),
   wf_fs before -> op_names_ok o = true -> op_ok before o = true ->
   let after := apply_op before o in
   Permutation (map (fun x => (snd x, fst x)) (desc [] (sub (target o)))) (below after (target o)) ->
   Permutation (replay (view_of before) (win_contract sub true after o)) (view_of after).
+
+Theorem C20_win_replay : C20_win_replay_full.
+Proof. exact win_replay_full_wf. Qed.
+Print Assumptions C20_win_replay.
 
 (* Proved part: histories of any length, one operation per batch, in which every renamed entry is a
    leaf (a file or an empty directory) and every arriving directory is empty (so the walked tree has
